@@ -406,9 +406,15 @@ def find_line_intersection(
         # lines are parallel
         return None
 
-    d = (det(*line1_flt), det(*line2_flt))
-    x_intersection = round_half_up(det(d, xdiff) / div, 10)
-    y_intersection = round_half_up(det(d, ydiff) / div, 10)
+    # Work relative to the first point: determinants of absolute coordinates cancel
+    # catastrophically for short segments far from the origin
+    o_x, o_y = line1_flt[0][0], line1_flt[0][1]
+    d = (
+        det(*[(p[0] - o_x, p[1] - o_y) for p in line1_flt]),
+        det(*[(p[0] - o_x, p[1] - o_y) for p in line2_flt]),
+    )
+    x_intersection = round_half_up(o_x + det(d, xdiff) / div, 10)
+    y_intersection = round_half_up(o_y + det(d, ydiff) / div, 10)
 
     if (
         line1_bounds[0][0] <= x_intersection <= line1_bounds[0][1] and
